@@ -37,6 +37,18 @@
 
 using ll = long long;
 
+// ------------------------------------------------------------------ value type
+// The sequences hold `Val`, whose default operator< / > / == order by a scrambled function of the value —
+// inconsistent with every comparator the harness passes (<, >, v>>1).  tlx code that forgets to pass `comp`
+// on (e.g. std::lower_bound(first, last, v)) still compiles and yields a wrong result that the oracle reports.
+struct Val {
+    ll v = 0;
+    static unsigned poison(ll x) { return static_cast<unsigned>(x + 17) * 2654435761u; }
+    friend bool operator<(const Val& a, const Val& b) { return poison(a.v) < poison(b.v); }
+    friend bool operator>(const Val& a, const Val& b) { return poison(a.v) > poison(b.v); }
+    friend bool operator==(const Val& a, const Val& b) { return poison(a.v) == poison(b.v); }
+};
+
 // ------------------------------------------------------------------ iterator
 struct Log {
     std::vector<std::pair<int, long>> reads;
@@ -45,32 +57,32 @@ struct Log {
     void clear() { reads.clear(); errors.clear(); }
 };
 static Log g_log;
-static ll g_dummy = 0;
+static Val g_dummy;
 
 struct CkIt {
     using iterator_category = std::random_access_iterator_tag;
-    using value_type = ll;
+    using value_type = Val;
     using difference_type = long;
-    using pointer = ll*;
-    using reference = ll&;
-    ll* base = nullptr;
+    using pointer = Val*;
+    using reference = Val&;
+    Val* base = nullptr;
     long len = 0, pos = 0;
     int seq = -1;
     CkIt() {}
-    CkIt(ll* b, long l, long p, int s) : base(b), len(l), pos(p), seq(s) {}
-    ll& at(long p, bool logit) const {
+    CkIt(Val* b, long l, long p, int s) : base(b), len(l), pos(p), seq(s) {}
+    Val& at(long p, bool logit) const {
         if (logit && g_log.on) g_log.reads.emplace_back(seq, p);
         if (p < 0 || p >= len) {
             if (g_log.errors.size() < 4)
                 g_log.errors.push_back("out-of-bounds read seq " + std::to_string(seq) + " index " +
                                        std::to_string(p) + " length " + std::to_string(len));
-            g_dummy = 0;
+            g_dummy.v = 0;
             return g_dummy;
         }
         return base[p];
     }
-    ll& operator[](long n) const { return at(pos + n, true); }
-    ll& operator*() const { return at(pos, false); }
+    Val& operator[](long n) const { return at(pos + n, true); }
+    Val& operator*() const { return at(pos, false); }
     CkIt& operator++() { ++pos; return *this; }
     CkIt operator++(int) { CkIt t = *this; ++pos; return t; }
     CkIt& operator--() { --pos; return *this; }
@@ -100,6 +112,7 @@ struct Comp {
         default: return (a >> 1) < (b >> 1);
         }
     }
+    bool operator()(const Val& a, const Val& b) const { return (*this)(a.v, b.v); }
 };
 static bool parse_cmp(const std::string& s, Cmp& c) {
     if (s == "lt") c = LT; else if (s == "gt") c = GT; else if (s == "half") c = HALF; else return false;
@@ -193,12 +206,20 @@ struct Res {
     long offset = 0;
 };
 
+static std::vector<std::vector<Val>> to_vals(const Runs& runs) {
+    std::vector<std::vector<Val>> st(runs.size());
+    for (size_t i = 0; i < runs.size(); ++i)
+        for (ll x : runs[i]) { Val v; v.v = x; st[i].push_back(v); }
+    return st;
+}
+
 static Res run_part(Runs& runs, Comp comp, long rank) {
     size_t m = runs.size();
+    std::vector<std::vector<Val>> st = to_vals(runs);
     std::vector<std::pair<CkIt, CkIt>> seqs(m);
     for (size_t i = 0; i < m; ++i) {
-        long len = (long)runs[i].size();
-        seqs[i] = std::make_pair(CkIt(runs[i].data(), len, 0, (int)i), CkIt(runs[i].data(), len, len, (int)i));
+        long len = (long)st[i].size();
+        seqs[i] = std::make_pair(CkIt(st[i].data(), len, 0, (int)i), CkIt(st[i].data(), len, len, (int)i));
     }
     std::vector<CkIt> offs(m);
     g_log.clear();
@@ -210,15 +231,16 @@ static Res run_part(Runs& runs, Comp comp, long rank) {
 
 static Res run_sel(Runs& runs, Comp comp, long rank) {
     size_t m = runs.size();
+    std::vector<std::vector<Val>> st = to_vals(runs);
     std::vector<std::pair<CkIt, CkIt>> seqs(m);
     for (size_t i = 0; i < m; ++i) {
-        long len = (long)runs[i].size();
-        seqs[i] = std::make_pair(CkIt(runs[i].data(), len, 0, (int)i), CkIt(runs[i].data(), len, len, (int)i));
+        long len = (long)st[i].size();
+        seqs[i] = std::make_pair(CkIt(st[i].data(), len, 0, (int)i), CkIt(st[i].data(), len, len, (int)i));
     }
     g_log.clear();
     Res r;
     try {
-        r.val = tlx::multisequence_selection<ll>(seqs.begin(), seqs.end(), rank, r.offset, comp);
+        r.val = tlx::multisequence_selection<Val>(seqs.begin(), seqs.end(), rank, r.offset, comp).v;
     } catch (const std::exception&) {
         r.threw = true;
     }
